@@ -134,6 +134,11 @@ def gen_cases(rng, tier, scale):
         ops = [f'regs {x("main")} {x(tsrc)}', f'regs {x("other")} {x("o")}']
         seq = [f'rbad {e} {x("main")}' for e in (0, 1, 2, 3)] + [f'rbad {e} {x(tsrc)}' for e in (4, 5, 6, 7)]
         cases.append({'line': f'bad{kb} ' + ' ; '.join(ops + seq), 'kind': 'badser', 'tpl': tsrc, 'tags': ['unserializable-data']})
+    # ... and when a second failure is waiting behind it (a name that is not registered, a template string that does not compile):
+    # the data is wrapped first by every entry point, so all eight still fail alike with SerdeError
+    ops = [f'regs {x("other")} {x("o")}']
+    seq = [f'rbad {e} {x("nosuch")}' for e in (0, 1, 2, 3)] + [f'rbad {e} {x("{{#if a}}open")}' for e in (4, 5, 6, 7)]
+    cases.append({'line': 'bad2f ' + ' ; '.join(ops + seq), 'kind': 'badser', 'tpl': 'nosuch', 'tags': ['unserializable-data', 'two-failures']})
     # history independence: render_template* under configuration B gives the same bytes whether the registry (or a
     # clone of it) rendered the same template string under configuration A before or not
     k3 = 0
